@@ -350,6 +350,13 @@ pub fn run_case(prop: &dyn Property, base_seed: u64, case: u64, tier: Tier, repl
             let mut path = report(prop, &scn, refdata.as_ref(), &mspec, &mres, &mviol, case_seed, replay_dir);
             // the file must reproduce in a fresh run before it is reported
             if !verify_replay_file(prop, &path) {
+                if std::env::var("QSIM_DEBUG").is_ok() {
+                    eprintln!("minimised result: end={:?} steps={} ndec={} tail_steps={} hash={:x} replay_len={:?} tail_from={:?} ed={} nw={} same_list={}", mres.end, mres.steps, mres.decisions.len(), mres.tail_steps, mres.log_hash, mspec.replay.as_ref().map(|r| r.len()), mspec.tail_from, mspec.cfg.event_driven, mspec.cfg.nworkers, mspec.replay.as_ref() == Some(&mres.decisions));
+                    for _ in 0..2 {
+                        let r2 = run_spec(prop, &scn, mspec.clone(), false);
+                        eprintln!("  rerun: end={:?} steps={} hash={:x} tail_steps={}", r2.end, r2.steps, r2.log_hash, r2.tail_steps);
+                    }
+                }
                 path = format!("{path} (WARNING: replay did not reproduce)");
             }
             rep.violations.push(FoundViolation { prop: mviol.prop.clone(), key: mviol.key.clone(), rule: mviol.rule.clone(), detail: mviol.detail.clone(), replay: path });
